@@ -59,8 +59,8 @@ CHECKS = {
         "groups": [
             {"pkg": "./server/commitlog", "overlay": "commitlog", "pkgname": "commitlog",
              "harnesses": [
-                 {"name": "VerifC08Compact", "quick": {"msgs": 3}, "thorough": {"msgs": 4},
-                  "covers": ["done", "multi-segment", "append-during-compaction"],
+                 {"name": "VerifC08Compact", "quick": {"msgs": 3, "livereader": 0}, "thorough": {"msgs": 3, "livereader": 1},
+                  "covers": ["done", "multi-segment", "append-during-compaction"], "max-paths": 1000000,
                   "targets": ["compactCleaner).cleanSegment", "compactCleaner).scanSegments", "ReverseReader).ReadMessage"]},
              ]},
         ],
@@ -74,6 +74,27 @@ CHECKS = {
                  {"name": "VerifC09Retention", "quick": {"msgs": 4}, "thorough": {"msgs": 5},
                   "covers": ["done", "multi-segment", "dropped", "nothing-dropped", "append-during-clean"],
                   "targets": ["deleteCleaner).applyAgeLimit", "deleteCleaner).applyMessagesLimit", "deleteCleaner).applyBytesLimit", "commitLog).rebaseSegments"]},
+             ]},
+        ],
+    },
+    "C10": {
+        "explanation": "bounded symbolic execution of partition.Subscribe (start/stop/direction) on shaped real logs, of the timestamp look-ups behind it, and of a reader kept open across compactions",
+        "assumptions": ["message timestamps strictly increase (wall-clock nanoseconds)",
+                        "reverse subscriptions with a stop timestamp have no documented meaning and are not asserted",
+                        "gRPC framing, ReadISRReplica on followers and encryption are outside (C17 covers encryption)"],
+        "groups": [
+            {"pkg": "./server", "overlay": "server", "pkgname": "server",
+             "harnesses": [
+                 {"name": "VerifC10Subscribe", "quick": {"reverse": 1}, "thorough": {"reverse": 1},
+                  "covers": ["done", "rejected", "forward-ended", "forward-waiting", "reverse-ended", "hw-below-end"],
+                  "targets": ["partition).Subscribe", "partition).getStartOffset", "partition).getStopOffset", "commitLog).EarliestOffsetAfterTimestamp", "commitLog).LatestOffsetBeforeTimestamp"]},
+             ]},
+            {"pkg": "./server/commitlog", "overlay": "commitlog", "pkgname": "commitlog",
+             "harnesses": [
+                 {"name": "VerifC10TimestampLookup", "quick": {"msgs": 3}, "thorough": {"msgs": 5},
+                  "covers": ["done", "empty-active-segment"], "targets": ["findSegmentIndexByTimestamp", "segment).findEntryByTimestamp"]},
+                 {"name": "VerifC10ReaderAcrossCompaction", "quick": {"msgs": 4}, "thorough": {"msgs": 5},
+                  "covers": ["done"], "targets": ["Reader).ReadMessage", "compactCleaner).cleanSegment"]},
              ]},
         ],
     },
@@ -104,6 +125,33 @@ CHECKS = {
              ]},
         ],
     },
+    "C17": {
+        "explanation": "bounded symbolic execution of LocalEncryptionHandler.Seal/Read framing with the cryptographic primitives replaced by invertible stand-ins",
+        "assumptions": ["AES-GCM and AES-KWP are stand-ins: injective framings whose inverse fails on anything that is not their own output; confidentiality, integrity of the ciphertext body and distinct-master-key behaviour are NOT decided by this technique",
+                        "crypto/rand is a fixed byte pattern"],
+        "groups": [
+            {"pkg": "./server/encryption", "overlay": "encryption", "pkgname": "encryption",
+             "env": {"VERIF_MASTER_KEY": "0123456789abcdef0123456789abcdef"},
+             "harnesses": [
+                 {"name": "VerifC17RoundTrip", "quick": {"maxlen": 8}, "thorough": {"maxlen": 32}, "covers": ["done"], "targets": ["LocalEncryptionHandler).Seal", "LocalEncryptionHandler).Read"]},
+                 {"name": "VerifC17ReadTotal", "quick": {"maxlen": 6}, "thorough": {"maxlen": 48}, "covers": ["done", "error"], "targets": ["LocalEncryptionHandler).Read"]},
+                 {"name": "VerifC17Truncated", "covers": ["done"], "targets": ["LocalEncryptionHandler).decryptData"]},
+                 {"name": "VerifC17Tampered", "covers": ["done"], "targets": ["LocalEncryptionHandler).Read"]},
+             ]},
+        ],
+    },
+    "C19": {
+        "explanation": "symbolic execution of the telemetry collector with the HTTP stack replaced by an effect recorder; the enabled flag is symbolic, the JSON body is produced by a structural model of encoding/json driven by the struct tags of the current source",
+        "assumptions": ["net/http (NewRequestWithContext, Header.Set, Client.Do) is an effect recorder", "encoding/json.Marshal is modelled structurally from go/types (field tags -> keys)",
+                        "viper's file/env/flag resolution and the Server.Start gates are outside this harness"],
+        "groups": [
+            {"pkg": "./server/telemetry", "overlay": "telemetry", "pkgname": "telemetry",
+             "harnesses": [
+                 {"name": "VerifC19Collector", "covers": ["done", "enabled", "disabled"], "replay": "interpreted",
+                  "targets": ["Collector).Start", "Collector).sendTelemetry", "Collector).collectPayload", "loadOrCreateInstanceID"]},
+             ]},
+        ],
+    },
     "C14": {
         "explanation": "bounded symbolic execution of protocol.checkEnvelope and wrappers over all byte strings up to maxlen",
         "assumptions": [
@@ -123,6 +171,12 @@ CHECKS = {
 TECH = "bounded symbolic execution of the real Go code (go/ssa) with z3; counterexamples replayed natively"
 
 META = {
+    "C19": {"text": "Symbolic execution of the real collector (New/Start/run/sendTelemetry/collectPayload/loadOrCreateInstanceID) with a symbolic enabled flag, a virtual clock that lets two reporting intervals pass, memFS for the instance-id file and the HTTP stack as an effect recorder: disabled => no request at all; enabled => endpoint fixed, JSON keys within the documented set, the data directory string (standing for everything the server passes in) absent from URL, headers and body. This is the thinnest check of the set: one symbolic boolean; its value is that it re-derives the key set and the data flow from the current source on every run.",
+            "design_ref": "DESIGN.md §4 C19", "note": "what is not decided: viper env/file/flag resolution, the two gates in server.go (Server.Start), the real HTTP transport, what the OS reveals through runtime.Version()", "technique": TECH},
+    "C17": {"text": "Bounded symbolic model checking of the framing and data flow of server-side encryption: Seal/Read round trip for every value up to the bound, Read total (error, never a panic) on every byte string up to the bound, on every truncation of a sealed value and on every corruption of the key-size byte. The cryptography itself is replaced by stand-ins and is not claimed.",
+            "design_ref": "DESIGN.md §4 C17", "note": "bounds: values 0-8 (32) bytes, arbitrary stored forms 0-6 (48) bytes; what is NOT decided: that the log never contains plaintext (needs the real cipher), tampering inside the AEAD/KWP blobs, distinct master keys; the leader-loop data flow (value handed to Append is the Seal output) is part of the C04/C16 partition harness", "technique": TECH},
+    "C10": {"text": "Bounded symbolic model checking of the implementation: partition.Subscribe with its real subscription loop on dense, compacted (offset gaps), retention-trimmed and empty logs, HW at or below the end, read-only or not; start position (5) x stop position (4) x direction (2) with symbolic offsets and timestamps; delivered sequence and termination compared with a specification function. Plus the timestamp look-ups on symbolic layouts (incl. an empty active segment) and a reader kept open across two compactions with symbolic keys.",
+            "design_ref": "DESIGN.md §4 C10", "note": "bounds: 4 messages (one per segment) per shape, offsets in [-1,newest+2], timestamps in [0,50] against message times 10..40; look-ups: 3-5 messages, segment size 40..200; reverse x stop-timestamp not asserted", "technique": TECH},
     "C13": {"text": "Bounded symbolic model checking of the implementation: partition.Subscribe with its real subscription-loop goroutines on a real commit log; the history of group subscribes (two consumer ids, so the same id can return; epochs arbitrary 64-bit values decided by the solver), client departures and message deliveries is explored exhaustively within the bound and compared with a holder model at every quiescent point.",
             "design_ref": "DESIGN.md §4 C13", "note": "bounds: 4 (quick) / 5 (thorough) operations, one consumer group, two consumer ids, run-to-block scheduling between operations", "technique": TECH},
     "C12": {"text": "Bounded symbolic model checking of the implementation: the real consumerGroup code runs on directly constructed groups; consumer ids are symbolic pairwise-distinct strings (every relative order of ids is a solver case), partition counts, subscriptions and the join/leave/stream-delete history are choices explored exhaustively within the bound; after each operation the exactly-one-owner, subscribed-only, balance and two-replica-agreement assertions are checked.",
